@@ -66,11 +66,14 @@ def record(ds):
     return rec
 
 
+REFUSALS = {'AssertionError', 'ItemsNotDefined', 'NotImplementedError'}
+
+
 def compare(a, b, what):
     for p in ('iter1', 'iter2'):
         (ga, ea), (gb, eb) = a[p], b[p]
-        if 'AssertionError' in (ea, eb):
-            continue  # the documented "Keys are not unique" refusal depends on the structure, not on the law
+        if {ea, eb} & REFUSALS:
+            continue  # a documented refusal of key iteration depends on the structure, not on the law
         if not observe.same_list(ga, gb) or ea != eb:
             raise Violation(f'{what}|iteration', f'{p}: lhs {ga} ({ea})\n       rhs {gb} ({eb})')
     if a['len'] is not None and b['len'] is not None and a['len'] != b['len']:
@@ -80,7 +83,7 @@ def compare(a, b, what):
             x, y = a['index'][i], b['index'].get(i)
             if y is None:
                 continue
-            if 'AssertionError' in (x[1], y[1]):
+            if {x[1], y[1]} & REFUSALS:
                 continue
             if x[0] != y[0] or (x[0] == 'v' and not observe.same(x[1], y[1])) or (x[0] == 'e' and x[1] != y[1]):
                 raise Violation(f'{what}|index', f'ds[{i}]: lhs {x} rhs {y}')
@@ -89,7 +92,7 @@ def compare(a, b, what):
             raise Violation(f'{what}|keys', f'lhs {a["keys"]} rhs {b["keys"]}')
         for k in a['lookup']:
             x, y = a['lookup'][k], b['lookup'].get(k)
-            if y is None or 'AssertionError' in (x[1], y[1]):
+            if y is None or (x[0] == 'e' and x[1] in REFUSALS) or (y[0] == 'e' and y[1] in REFUSALS):
                 continue
             if x[0] != y[0] or (x[0] == 'v' and not observe.same(x[1], y[1])):
                 raise Violation(f'{what}|lookup', f'ds[{k!r}]: lhs {x} rhs {y}')
